@@ -81,15 +81,15 @@ Definition exOps := [OAddMw 1 None; OAddHandler exA; OAddHMw 10 2 None; OAddHand
                      OAddMw 5 None; OAddHMw 10 6 None; OAddPubDec 52].
 Example C09_witness_A :
   map (fun p => c09_proj (snd p)) (deliver (exec rinit exOps) (DL 1 20 cx0 (Ret [1%N]) PubAccept)) =
-  [[OSub 60; OSub 61; OEnter 1; OEnter 2; OEnter 3; OFn; OExit 3; OExit 2; OExit 1; OPubDec 50; OPubDec 51; OPub]].
+  [[OSub 60 (ctx_of exA); OSub 61 (ctx_of exA); OEnter 1; OEnter 2; OEnter 3; OFn; OExit 3; OExit 2; OExit 1; OPubDec 50; OPubDec 51; OPub]].
 Proof. reflexivity. Qed.
 Example C09_witness_B :
   map (fun p => c09_proj (snd p)) (deliver (exec rinit exOps) (DL 1 21 cx0 Panic PubAccept)) =
-  [[OSub 60; OSub 61; OEnter 1; OEnter 3; OEnter 4; OFn]].
+  [[OSub 60 (ctx_of exB); OSub 61 (ctx_of exB); OEnter 1; OEnter 3; OEnter 4; OFn]].
 Proof. reflexivity. Qed.
 (** a handler added and started later picks up the late registrations too *)
 Example C09_witness_late_handler :
   map (fun p => c09_proj (snd p))
       (deliver (exec rinit (exOps ++ [OAddHandler (HC 12 1 7 22 PNil 0 3); OStart])) (DL 1 22 cx0 (Ret []) PubAccept)) =
-  [[OSub 60; OSub 61; OEnter 1; OEnter 3; OEnter 5; OFn; OExit 5; OExit 3; OExit 1]].
+  [[OSub 60 (CX 12 ty_nil 7 22 0); OSub 61 (CX 12 ty_nil 7 22 0); OEnter 1; OEnter 3; OEnter 5; OFn; OExit 5; OExit 3; OExit 1]].
 Proof. reflexivity. Qed.
